@@ -309,9 +309,11 @@ Qed.
 
 (* ------------------------------------------------------------------ over R: the generated circuit implements exp(-i t c P) *)
 Definition num_R : pynum :=
-  mk_pynum R IZR Q2R Rmult Rdiv Rabs
+  mk_pynum R IZR Q2R Rplus Rmult Rdiv Rabs
            (fun a b => if Rlt_le_dec b a then true else false)
-           (fun a => if Req_EM_T a 0%R then true else false).
+           (fun a => if Req_EM_T a 0%R then true else false)
+           (fun a b => if Req_EM_T a b then true else false).
+Definition num_Rpi : pynum_pi := mk_pynum_pi num_R PI.
 
 Theorem term_gen_real (c im t : R) (l : ops) : keys_from 0 l -> l <> [] -> (Rabs im <= Q2R (1 # 1000000000))%R ->
   time_evolution_for_term_gen num_R (mk_pterm c im l) t = Ok (pyc (evolve_ops l (2 * (t * c))%R)).
